@@ -60,21 +60,21 @@ theorem firstEnd_nwordB {i : Nat} (h : isWordB T s i = false) : firstEnd T s .nw
 theorem firstEnd_eps {i : Nat} : firstEnd T s .eps i = some i := by unfold firstEnd; rw [ends]; rfl
 
 /-- `n` steps, each the engine's first choice -/
-def Chain (f : Nat → List Nat) : Nat → Nat → Nat → Prop
+def HeadChain (f : Nat → List Nat) : Nat → Nat → Nat → Prop
   | 0, i, k => k = i
-  | n + 1, i, k => ∃ m, (f i).head? = some m ∧ Chain f n m k
+  | n + 1, i, k => ∃ m, (f i).head? = some m ∧ HeadChain f n m k
 
 /-- a greedy repeat first tries as many iterations as possible: if the first choices lead through `n` iterations to
 `k` and no further iteration is possible there, `k` is its first end -/
 theorem repEnds_first {f : Nat → List Nat} (mx : Nat) :
-    ∀ mn i n k, n ≤ mx → mn ≤ n → Chain f n i k → (n = mx ∨ f k = []) →
+    ∀ mn i n k, n ≤ mx → mn ≤ n → HeadChain f n i k → (n = mx ∨ f k = []) →
       (repEnds f true mx mn i).head? = some k := by
   induction mx with
   | zero =>
     intro mn i n k h1 h2 hc _
     have : n = 0 := by omega
     subst this
-    simp only [Chain] at hc
+    simp only [HeadChain] at hc
     subst hc
     have : mn = 0 := by omega
     subst this
@@ -84,7 +84,7 @@ theorem repEnds_first {f : Nat → List Nat} (mx : Nat) :
     rw [repEnds]
     cases n with
     | zero =>
-      simp only [Chain] at hc
+      simp only [HeadChain] at hc
       subst hc
       have : mn = 0 := by omega
       subst this
@@ -110,12 +110,12 @@ theorem repEnds_first {f : Nat → List Nat} (mx : Nat) :
           subst this
           simp [hr]
 
-theorem firstEnd_rep {a : RE} {mn mx i n k : Nat} (h1 : n ≤ mx) (h2 : mn ≤ n) (hc : Chain (ends T s a) n i k)
+theorem firstEnd_rep {a : RE} {mn mx i n k : Nat} (h1 : n ≤ mx) (h2 : mn ≤ n) (hc : HeadChain (ends T s a) n i k)
     (hstop : n = mx ∨ ends T s a k = []) : firstEnd T s (.rep a mn mx true) i = some k := by
   unfold firstEnd; rw [ends]; exact repEnds_first mx mn i n k h1 h2 hc hstop
 
 theorem Chain_of_Iter {f : Nat → List Nat} {R : Nat → Nat → Prop} (h : ∀ i k, R i k → (f i).head? = some k) (n : Nat) :
-    ∀ i k, Iter R n i k → Chain f n i k := by
+    ∀ i k, Iter R n i k → HeadChain f n i k := by
   induction n with
   | zero => intro i k hk; exact hk
   | succ n ih => intro i k ⟨m, hm, hk⟩; exact ⟨m, h _ _ hm, ih _ _ hk⟩
